@@ -611,8 +611,20 @@ func gen(w *world, t *trace.W, r *rng.R, malformed bool) {
 		}
 		states[uint64(i)] = st
 		rc := pickInt(r, 0, 5, 20, 40, 80)
-		w.run(t, fmt.Sprintf("store %d st=%d down=%d busy=%d pause=%d cap=1099511627776 avail=%d rc=%d lc=%d rsize=%d lsize=%d labels=%s",
-			i, st, down, busy, pause, uint64(1099511627776)/128*uint64(pickInt(r, 40, 64, 100, 120)), rc, rc/3, rc*96, rc*32, l))
+		// temporary throttling states: snapshots in flight, pending peers (idle otherwise)
+		extra := ""
+		if unhealthy == 1 && r.Bool(12, 100) {
+			switch r.Pick(40, 30, 30) {
+			case 0:
+				extra = fmt.Sprintf(" ss=%d", pickInt(r, 3, 4, 6))
+			case 1:
+				extra = fmt.Sprintf(" rs=%d", pickInt(r, 3, 4, 6))
+			case 2:
+				extra = fmt.Sprintf(" pend=%d", pickInt(r, 16, 17, 40))
+			}
+		}
+		w.run(t, fmt.Sprintf("store %d st=%d down=%d busy=%d pause=%d%s cap=1099511627776 avail=%d rc=%d lc=%d rsize=%d lsize=%d labels=%s",
+			i, st, down, busy, pause, extra, uint64(1099511627776)/128*uint64(pickInt(r, 40, 64, 100, 120)), rc, rc/3, rc*96, rc*32, l))
 	}
 	withLearner := false // a learner on a TiFlash store (rule constrained to the engine)
 	ordLearner := false  // a learner on an ordinary store (unconstrained learner rule)
